@@ -141,6 +141,7 @@ class CSSMediaRule(cssrule.CSSRuleRules):
             # check for {
             if '{' != self._tokenvalue(end):
                 reset()
+                self._accepted = False
                 self._log.error(
                     'CSSMediaRule: No "{" found: %s' % self._valuestr(cssText)
                 )
@@ -192,7 +193,7 @@ class CSSMediaRule(cssrule.CSSRuleRules):
                     )
                     # namespaces given with the text are used if not attached
                     rule.cssText = (self._tokensupto2(tokenizer, token), namespaces)
-                    if rule.wellformed:
+                    if rule.wellformed and getattr(rule, '_accepted', True):
                         self.insertRule(rule)
                     return expected
 
@@ -234,7 +235,7 @@ class CSSMediaRule(cssrule.CSSRuleRules):
                         if '@media' == atval:
                             tokens = (tokens, namespaces)
                         rule.cssText = tokens
-                        if rule.wellformed:
+                        if rule.wellformed and getattr(rule, '_accepted', True):
                             self.insertRule(rule)
                     else:
                         rule = cssutils.css.CSSUnknownRule(
@@ -242,7 +243,7 @@ class CSSMediaRule(cssrule.CSSRuleRules):
                             parentRule=self,
                             parentStyleSheet=self.parentStyleSheet,
                         )
-                        if rule.wellformed:
+                        if rule.wellformed and getattr(rule, '_accepted', True):
                             self.insertRule(rule)
                     return expected
 
@@ -277,6 +278,8 @@ class CSSMediaRule(cssrule.CSSRuleRules):
                     raise
                 ok = ok and wellformed
 
+            # (read by the parser of the containing sheet or rule)
+            self._accepted = ok
             if ok:
                 self.media = newMedia
                 self.name = name
